@@ -39,7 +39,9 @@ def make_case(cid, rng, schema, n_ops, code, shaped=None, norow=False):
         full += GH.first_id_prelude(schema, GH.FIRST_IDS[shaped % len(GH.FIRST_IDS)])
     for op in ops:
         if op["op"] in MUTATING:
-            full.append({"op": "fault_sweep", "inner": op, "code": code, "max_k": 600, "keep_going": True, "stored": True})
+            # every third call is failed where its statements are compiled (sqlite3_prepare_v2) rather than where they are stepped
+            full.append({"op": "fault_sweep", "inner": op, "code": code, "max_k": 600, "keep_going": True, "stored": True,
+                         "at_prepare": len(full) % 3 == 2})
             if norow and op["op"] == "create_track" and not dropped:
                 # 1.x: the first track as Engine leaves one it has imported but not analysed - no performance-data row at all
                 full.append({"op": "raw_exec", "sql": "DELETE FROM PerformanceData WHERE id = (SELECT MIN(id) FROM Track)"})
@@ -62,6 +64,7 @@ def make_table_case(cid, rng, schema, code):
 
     def sweep(op):
         outer = {"op": "fault_sweep", "inner": op, "code": code, "max_k": 600, "keep_going": True, "tables": True, "stored": True,
+                 "at_prepare": len(full) % 3 == 2,
                  "observe": {"snapshots": False}}
         if "bind" in op:
             # the id comes from the fault-free run at the end of the sweep
@@ -148,7 +151,9 @@ def judge_case(ctx, res):
             ctx.count()
             ctx.bump("faults_fired")
             ctx.bump_in("faults_by_call", od)
-            sqlk = (run.get("sql") or "").strip().split(" ")[0].upper()
+            sq = (run.get("sql") or "").strip()
+            ctx.bump_in("faults_by_site", "prepare" if sq.startswith("[prepare]") else "step")
+            sqlk = sq.replace("[prepare] ", "").split(" ")[0].upper()
             ctx.bump_in("faulted_statement_kinds", sqlk)
             if nst >= 2:
                 ctx.nontriv("%s|%s|%d" % (schema, od, run["k"]))
